@@ -500,7 +500,24 @@ func execute(s *engine.Script, o *engine.Outcome) {
 					tc.unstable = true
 					o.Probe("call_result_varies_when_repeated_alone:" + tc.c.name)
 				}
-			} else if y != tc.yields {
+			} else if y != tc.yields && func() bool {
+				// a path that simply is not a function of the value (it ranges over a
+				// Go map, say) differs from execution to execution; a path that the
+				// first execution changed for all later ones is the same from the
+				// second execution on
+				pv3, tw3 := private(), private()
+				if !pv3.IsValid() {
+					return false
+				}
+				schedCountOnly(true)
+				safeCall(tc.c, pv3, tw3)
+				y3 := schedYields()
+				schedCountOnly(false)
+				if y3 != y {
+					o.Probe("call_path_varies_when_repeated_alone:" + tc.c.name)
+				}
+				return y3 == y
+			}() {
 				o.Violate("C18/read-only-calls-left-a-trace/"+tc.c.name, "task %d call %d %s: executed %d statements on a fresh %s the first time and %d when repeated on another fresh instance of the same value", id, ci, tc.c.name, tc.yields, vop.Struct, y)
 			}
 		}
